@@ -1545,3 +1545,7 @@ M('C05', 'weighted sum sampling drops imaginary parts (regression)', TOPS,
             y = np.bincount(self._indices_flat, weights=x,
                             minlength=self.range.size)
         else:""", 'discretized, complex')
+M('C14', 'index normaliser rejects positive start with negative stop', 'odl/util/normalize.py',
+  "    if any(s.start == s.stop and s.start is not None or",
+  "    if any(s.start is not None and s.stop is not None and s.start >= s.stop or",
+  'RectPartition.__getitem__')
